@@ -110,6 +110,10 @@ def main():
     r_ = h_lru.faulty_inner({}, {})
     if r_.get("reproduced"):
         violations.append({"what": "[faulty wrapped store] " + r_["detail"]})
+    evals += 4 * 4 * 27
+    r_ = h_lru.lockstep_readback({}, {})
+    if r_.get("reproduced"):
+        violations.append({"what": "[values whose stored form differs from the object] " + r_["detail"]})
     tmp = tempfile.mkdtemp(prefix="dds_b_lru_")
     try:
         c2 = [0]
@@ -142,7 +146,7 @@ def main():
     finally:
         shutil.rmtree(tmp, ignore_errors=True)
     print(json.dumps({
-        "scope": "all operation sequences of length <= %d over 2 keys x 3 operations x 4 capacities (MemoryStore), length 3 x 2 capacities (LocalFileStore); all sequences of length <= %d over 9 blob / path operations incl. a second writer on the wrapped store (MemoryStore, 2 capacities) and of length 3 on LocalFileStore; 9 histories with a wrapped store whose store_blob / sync_paths / fetch_blob fails once" % (L, LP),
+        "scope": "all operation sequences of length <= %d over 2 keys x 3 operations x 4 capacities (MemoryStore), length 3 x 2 capacities (LocalFileStore); all sequences of length <= %d over 9 blob / path operations incl. a second writer on the wrapped store (MemoryStore, 2 capacities) and of length 3 on LocalFileStore; 9 histories with a wrapped store whose store_blob / sync_paths / fetch_blob fails once; 432 histories (4 capacities x 4 values x 27 orders of store / fetch / has) on LocalFileStore with values whose stored form is not the object itself (bytearray, list mutated after the store)" % (L, LP),
         "evaluations": evals, "distinct_nontrivial": distinct, "exhaustive": True,
         "rule": "one case per (capacity, operation sequence); distinct = sequences of maximal length",
         "samples": samples, "violations": violations, "known_hits": [],
